@@ -33,7 +33,7 @@ func init() {
 			"(G6/G16) no range over a Go map lets its randomised order reach a result: body effects are per-key, iteration-local or commutative, or the accumulated slice is sorted afterwards on every path by a comparator that is total on the map's key type; " +
 			"(G7) no write site reachable from a parse writes memory that outlives the call (options value, extension object, package-level variables) or the input byte slice; " +
 			"(G8) no call path from a parse to clock, randomness or environment. " +
-			"Not decided: determinism of the standard library and protobuf runtime; time.LoadLocation depends on the host zone database.",
+			"G8 also covers reads of library variables that depend on the process environment (time.Local); the sort comparators must be total on the key (field coverage and stage qualifiers). Not decided: determinism of the standard library and protobuf runtime; time.LoadLocation depends on the host zone database.",
 		Assumptions: []string{"distinct map keys select distinct per-key objects (values of the id-keyed accumulators are allocated one per key)"},
 		Rules: []Rule{
 			{Name: "G6", Doc: "map-range order must not reach results", MinInstances: 3, Run: func(c *Ctx) {
